@@ -93,6 +93,7 @@ type tr struct {
 	recv   string
 	results []Ty // declared result types (error dropped)
 	dropErr bool
+	loopExit string // inside a range body: the expression `continue` evaluates to (the loop state tuple)
 }
 
 func (t *tr) pos(n ast.Node) token.Position { return t.fset.Position(n.Pos()) }
@@ -729,7 +730,8 @@ func containsReturn(stmts []ast.Stmt) bool {
 	found := false
 	for _, s := range stmts {
 		ast.Inspect(s, func(n ast.Node) bool {
-			if _, ok := n.(*ast.ReturnStmt); ok {
+			switch n.(type) {
+			case *ast.ReturnStmt, *ast.BranchStmt:
 				found = true
 			}
 			return !found
@@ -749,15 +751,27 @@ func endsInReturn(stmts []ast.Stmt) bool {
 // translate a statement list into a Lean expression; `tail` is the expression that follows when
 // control falls off the end of the list.
 func (t *tr) block(stmts []ast.Stmt, tail func() string, depth int) string {
-	if len(stmts) == 0 {
-		return tail()
-	}
 	pad := strings.Repeat(ind, depth)
+	if len(stmts) == 0 {
+		tl := strings.TrimLeft(tail(), " ")
+		if tl == "" {
+			return ""
+		}
+		return pad + tl
+	}
 	s := stmts[0]
 	rest := func() string { return t.block(stmts[1:], tail, depth) }
 	switch x := s.(type) {
 	case *ast.ReturnStmt:
+		if t.loopExit != "" {
+			fail(t.pos(s), "return inside loop")
+		}
 		return pad + t.ret(x)
+	case *ast.BranchStmt:
+		if x.Tok == token.CONTINUE && x.Label == nil && t.loopExit != "" {
+			return pad + t.loopExit
+		}
+		fail(t.pos(s), "branch statement %s", x.Tok)
 	case *ast.DeclStmt:
 		gd, ok := x.Decl.(*ast.GenDecl)
 		if !ok || gd.Tok != token.VAR {
@@ -838,6 +852,13 @@ func (t *tr) block(stmts []ast.Stmt, tail func() string, depth int) string {
 		t.assigned(elseList, copySet(decl), outSet)
 		names := sortedKeys(outSet)
 		if len(names) == 0 {
+			// nothing is assigned: the statement has no effect in the model, but every statement
+			// inside must still be within the subset (never skip what is not understood)
+			saved := copyVars(t.vars)
+			t.block(x.Body.List, func() string { return "" }, depth+1)
+			t.vars = copyVars(saved)
+			t.block(elseList, func() string { return "" }, depth+1)
+			t.vars = saved
 			return rest()
 		}
 		tuple := tupleOf(names)
@@ -1069,9 +1090,6 @@ func (t *tr) rangeStmt(x *ast.RangeStmt, pad string, depth int) string {
 	default:
 		fail(t.pos(x), "range over %s", coll.ty)
 	}
-	if containsReturn(x.Body.List) {
-		fail(t.pos(x), "return inside loop")
-	}
 	outSet := map[string]bool{}
 	t.assigned(x.Body.List, map[string]bool{}, outSet)
 	names := sortedKeys(outSet)
@@ -1092,7 +1110,10 @@ func (t *tr) rangeStmt(x *ast.RangeStmt, pad string, depth int) string {
 	} else {
 		head = fmt.Sprintf("%slet %s := Go.forN %s.length %s (fun %s %s =>\n", pad, tuple, paren(coll.s), tuple, ident(key.Name), tuple)
 	}
+	savedExit := t.loopExit
+	t.loopExit = tuple
 	body := t.block(x.Body.List, func() string { return strings.Repeat(ind, depth+2) + tuple }, depth+2)
+	t.loopExit = savedExit
 	t.vars = saved
 	return head + strings.TrimRight(body, "\n") + ")\n"
 }
